@@ -12,6 +12,8 @@ Correspondence streams (real code vs Lean model, every case):
   reparsed  parse_y0(str(e))                                   vs  PyEval.parseY0 (Print.expr e)        (iii)
   domain    (constant True)                                    vs  the theorems' hypotheses `wf e ∧ built e` decided by the model on the Python object
   simple    the oracle's simple-division test on the object    vs  the model's `simple e`
+  names_once  "each distribution mentions a name once" decided on the construction tree by
+            harness/oracles/print_names.py                     vs  the model's `namesOnce` (hypothesis of built_of_eval)
 plus a token-string stream (kind "tokens"): Python's parser vs PyParse.parse on mutated printed texts.
 
 Oracle (from the property statement, real code only): parse_y0(str(e)) succeeds and returns an Expression; it has the
@@ -26,28 +28,39 @@ from pathlib import Path
 
 from .. import common as C
 from ..oracles import print_codec as PC
+from ..oracles import print_names as PN
 
 PROP = "C12"
 RULE = ("type-directed constructions through the public builders only: P(...), P[...](...), PP[pop](...), PP[pop][...](...) with "
         "children/parents written as separate arguments, `|`, `&`, tuples, in shuffled order; variables plain, marked (+X, -X, ~X) "
         "and with intervention subscripts (Y @ X, Y @ (X, +Z), (Y @ X) @ Z); Sum[...](...), *, /, One(), Zero(), Q[...](...); "
-        "each distribution mentions a name at most once; depth <= 5 (built objects up to depth 7, 100+ tokens); 44% of the cases "
+        "each distribution mentions a name at most once; depth <= 5 (built objects up to depth 7, 100+ tokens); of the random stream 44% "
         "steered into the simple-division family (fractions only at the top or directly under a Sum, operands division-free and "
         "non-constant), 34% unrestricted, 20% shapes that leave the family (Sum * Fraction, constants as operands, divisions by "
         "fractions, products of fractions, Zero() operands), 2.5% malformed constructions the builders must reject (error taxonomy "
-        "of the interpreter model); names from the parser's table incl. digits, underscores, Pi, π. Corpus: README/paper estimands "
+        "of the interpreter model); a structured stream (15% of the constructions) with one shape per context-dependent printer "
+        "call site, wrapped 0-3 levels deep as summand / numerator / denominator / factor: Sum.to_y0 -> Fraction.to_y0(parens=False) "
+        "with a product / sum / atom denominator and product numerator, also through two Sums; Fraction.to_y0 with product "
+        "denominators at top level, as a factor of a product, with Sum(Fraction) as numerator / denominator / factor; "
+        "CounterfactualVariable.to_y0 with one and with several interventions; the level-2 `P[..](..)` / `PP[..][..](..)` print vs "
+        "mixed worlds (tags `shape`, `site …` computed on the built object); 1.3% constructions OUTSIDE the quantifier that write "
+        "a name twice (exercise `namesOnce` false; the property's oracle is not applied to them); "
+        "names from the parser's table incl. digits, underscores, Pi, π. Corpus: README/paper estimands "
         "and the F4/F5 witnesses. Token-string stream: printed texts with 0-3 token mutations, Python's parser vs PyParse. "
         "A case is non-trivial when the built object has >= 2 leaves and contains a product, a sum or a fraction.")
 ASSUMPTIONS = [
-    "the theorems quantify over expressions satisfying the decidable invariant `built` (children/parents/ranges/(co)domains/"
-    "subscripts sorted with each name once, products flat and in stable-sorted order without constant factors, Zero() only as the "
-    "whole expression). Closure of `built` under `*`, `/` and Sum[...] IS a theorem (built_closed_mul/div/sum, for any asymmetric "
-    "sort order; asymmetry is proved for the pinned _get_key order, for the total key of the expr family it is their key_total); "
-    "closure under the leaf builders P/P[..]/PP[..]/Q[..] and the variable operators + - ~ @ is proved builder by builder "
-    "(built_closed_P, built_closed_P_ivs, built_closed_Q, canon_closed_at, canon_closed_sign; arguments canonical with pairwise "
-    "distinct names). OPEN: built_of_eval, the composition of these along the interpreter's dispatch into one statement over "
-    "construction syntax trees; meanwhile `built` is also decided by the model on every Python-built object of every run "
-    "(correspondence stream `domain`)",
+    "the clause theorems quantify over expressions satisfying the decidable invariant `built` (children/parents/ranges/"
+    "(co)domains/subscripts sorted with each name once, products flat and in stable-sorted order without constant factors, Zero() "
+    "only as the whole expression). That every expression built through the public DSL satisfies it IS a theorem (built_of_eval, "
+    "no longer open): for every construction tree `a` over P/PP/Sum/Q/One/Zero, names, + - ~ @ | & * /, calls, subscripts and tuples "
+    "with `namesOnce a` (the quantifier's 'each distribution mentioning a variable name at most once', a decidable predicate on the "
+    "tree: every call's argument list, every `|`/`&`, every tuple, every `@` argument and every [...] subscript writes a name at most "
+    "once; tuples non-empty), whatever the interpreter model builds from `a` is `built` and well-formed; instantiated for the total "
+    "sort key of the code under test (Expr.ltE, asymmetry from the expr family's Expr.ltE_asymm) and for the pinned key. `namesOnce` "
+    "is decided on EVERY generated construction by the model and by an independent Python implementation (harness/oracles/"
+    "print_names.py, stream `names_once`); the generator produces namesOnce trees by construction (tag names_once: 100% of the "
+    "well-formed streams); the run-time stream `domain` (model decides wf && built on the Python-built object) is kept as a "
+    "cross-check and for constructions outside namesOnce",
     "quantifier: variable names are those of the parser's name table (A..Z without P/Q, Pi, π, with optional digit or _digit); "
     "a user-chosen name outside the table (e.g. 'AA') cannot be parsed by design of parse_y0 and is outside the property; the one such "
     "name the LIBRARY itself produces (TARGET_DOMAIN = 'pi*', the tag of transport estimands) is an OPEN known finding",
@@ -384,6 +397,49 @@ class Gen:
         return shape, self.mode_wrap(self.mode_core(shape), self.rng.choice([0, 0, 1, 1, 2, 3]))
 
 
+    def repeated(self):
+        """constructions OUTSIDE the quantifier: a list that the builders treat as a set writes a name twice (or a tuple is
+        empty). They exercise the negative side of `namesOnce` (model vs harness/oracles/print_names.py) and the
+        interpreter model on de-duplication; the oracle of the property is not applied to them."""
+        rng = self.rng
+        a, b, c = (_n(n) for n in (self.pool + self.pool)[:3])
+        P = lambda *args: ["call", ["k", "P"], *args]  # noqa: E731
+        pos = lambda x: ["un", "pos", x]  # noqa: E731
+        r = rng.randrange(16)
+        if r == 0:
+            x = P(a, a)
+        elif r == 1:
+            x = P(["bin", "bor", a, a])
+        elif r == 2:
+            x = P(["bin", "band", a, a])
+        elif r == 3:
+            x = P(["tup", a, b, a])
+        elif r == 4:
+            x = P(["bin", "bor", a, ["tup", b, b]])
+        elif r == 5:
+            x = P(["bin", "matmul", a, ["tup", b, b]])
+        elif r == 6:
+            x = P(["bin", "matmul", a, ["tup", pos(b), ["un", "neg", b]]])     # Y @ (+X, -X): no overlap check on a fresh list
+        elif r == 7:
+            x = ["call", ["sub", ["k", "Sum"], ["tup", a, a]], P(a, b)]
+        elif r == 8:
+            x = ["call", ["sub", ["k", "Q"], ["tup", a, a]], b]
+        elif r == 9:
+            x = ["call", ["sub", ["k", "Q"], a], b, b]
+        elif r == 10:
+            x = ["call", ["sub", ["k", "P"], ["tup", b, b]], a]
+        elif r == 11:
+            x = ["call", ["sub", ["k", "P"], ["tup", pos(b), b]], a]           # P[+X, X](Y): the same name with two values
+        elif r == 12:
+            x = P(["bin", "matmul", a, b], a)
+        elif r == 13:
+            x = P(["bin", "bor", a, b], a)
+        elif r == 14:
+            x = P(pos(a), ["bin", "bor", ["un", "neg", a], b])
+        else:
+            x = ["call", ["sub", ["k", "Q"], a], ["tup", b, c, b]]
+        return self.mode_wrap(x, rng.choice([0, 0, 1]))
+
     def malformed(self):
         """constructions the builders reject (error taxonomy of the interpreter model): the real code must raise, or
         return something that is not an expression, exactly when the model does"""
@@ -465,6 +521,9 @@ def cases(rng: random.Random, tier: str):
         g = Gen(random.Random(rng.randrange(1 << 60)))
         shape, a = g.modes(Gen.MODE_SHAPES[i % len(Gen.MODE_SHAPES)])
         out.append({"kind": "expr", "build": a, "shape": shape})
+    for _ in range({"quick": 160, "escalated": 500}.get(tier, 1600)):
+        g = Gen(random.Random(rng.randrange(1 << 60)))
+        out.append({"kind": "expr", "build": g.repeated(), "shape": "repeated-name"})
     m = {"quick": 1500, "escalated": 5000}.get(tier, 15000)
     exprs = [c for c in out if c["kind"] == "expr"]  # (special cases have no token stream)
     for _ in range(m):
@@ -642,7 +701,10 @@ def run_python(case):
     tags["built"] = "ok"
     s = str(e)
     enc_e = PC.to_str_tree(PC.enc_expr(e))
-    out = {"built": ["ok", enc_e], "domain": "true"}
+    once = PN.names_once(case["build"])
+    # `domain`: the theorems' hypotheses hold of every object built from a names-once construction (outside: not claimed)
+    out = {"built": ["ok", enc_e], "domain": "true" if once else "not-claimed", "names_once": "true" if once else "false"}
+    tags["names_once"] = once
     out["tokens"] = PC.tokens_of(s)
     try:
         out["ast"] = ["ok", PC.to_str_tree(PC.ast_of(s))]
@@ -672,6 +734,9 @@ def run_python(case):
                 fail = f"simple-division family: parse_y0({s!r}) = {str(p)!r} is not equal to the original object"
             elif str(p) != s:
                 fail = f"simple-division family: the parsed object prints {str(p)!r}, the original {s!r}"
+    if not once and fail is not None:
+        tags["outside_quantifier_roundtrip"] = "fails: " + fail.split(":")[0][:40]
+        fail = None                  # a repeated name: outside the property's quantifier, nothing is claimed
     nodes = list(_walk(e))
     leaves = [x for x in nodes if isinstance(x, (Probability, QFactor, One, Zero))]
     has = lambda cls: any(isinstance(x, cls) for x in nodes)  # noqa: E731
@@ -747,9 +812,9 @@ def canon_model(case, rep):
         return ["err"] if rep[0] == "err" else ["ok", rep[1]]
     if len(rep) == 2 or rep[0] == "err":      # reply of (print eval …)
         return {"built": _res(rep, norm=True)}
-    _, built, toks, ast_, re_, dom, simp = rep
-    return {"built": _res(built, norm=True), "domain": dom, "tokens": list(toks[1:]), "ast": _res(ast_),
-            "reparsed": _res(re_), "simple": simp}
+    _, built, toks, ast_, re_, dom, simp, once = rep
+    return {"built": _res(built, norm=True), "domain": dom if once == "true" else "not-claimed", "tokens": list(toks[1:]), "ast": _res(ast_),
+            "reparsed": _res(re_), "simple": simp, "names_once": once}
 
 
 # ------------------------------------------------------------------------------------------ shrinking, keys
